@@ -8,6 +8,7 @@ package main
 
 import (
 	"bufio"
+	"encoding/gob"
 	"encoding/json"
 	"flag"
 	"fmt"
@@ -150,3 +151,38 @@ func fenKeys(args []string) error {
 	b, _ := json.Marshal(keys)
 	return os.WriteFile(*outF, b, 0o644)
 }
+
+// gob-probe: for every file of a directory, does the file decode as a book cache (gob of the book map, decoded into a
+// FRESH map)? Used to tell "undecodable" damaged cache files (for which property C20 demands the source-built book) from
+// damaged files that still decode (for which it demands nothing).
+func gobProbe(args []string) error {
+	fs := flag.NewFlagSet("gob-probe", flag.ContinueOnError)
+	dirF := fs.String("dir", "", "directory with candidate cache files")
+	outF := fs.String("out", "", "json: file name -> decodes")
+	if err := fs.Parse(args); err != nil {
+		return err
+	}
+	ents, err := os.ReadDir(*dirF)
+	if err != nil {
+		return err
+	}
+	res := map[string]bool{}
+	for _, e := range ents {
+		f, err := os.Open(filepath.Join(*dirF, e.Name()))
+		if err != nil {
+			continue
+		}
+		m := map[uint64]openingbook.BookEntry{}
+		ok := guard(func() {
+			if err := gob.NewDecoder(f).Decode(&m); err != nil {
+				panic(err)
+			}
+		}) == ""
+		f.Close()
+		res[e.Name()] = ok
+	}
+	b, _ := json.Marshal(res)
+	return os.WriteFile(*outF, b, 0o644)
+}
+
+func init() { register("gob-probe", gobProbe) }
